@@ -123,6 +123,7 @@ def corr(ctx, pexpect, n):
         sp = shared[bm] if rng.random() < 0.8 else SpawnBase(encoding=None if bm else 'utf-8')
         sp.ignorecase = ic
         obj = py_obj(pexpect, o)
+        snapshot = list(obj) if isinstance(obj, list) else None
         try:
             if ex:
                 # the preparation of expect_exact, observed through the searcher it builds
@@ -155,6 +156,12 @@ def corr(ctx, pexpect, n):
         except Exception as e:
             res = [9, type(e).__name__]
         seen[str(res[0])] = seen.get(str(res[0]), 0) + 1
+        # a pattern list belongs to the caller: it is the same list of the same objects afterwards (otherwise the same list
+        # would mean something else the next time it is used)
+        if snapshot is not None and nhit < 3 and not (len(obj) == len(snapshot) and all(a is b for a, b in zip(obj, snapshot))):
+            nhit += 1
+            ctx.hit('C20/caller-list-modified', '%s(%s) changed the caller\'s list: it now holds %r' % ('expect_exact' if ex else 'compile_pattern_list', repr(o), [type(x).__name__ for x in obj]),
+                    {'object': repr(o), 'bytes_mode': bm, 'ignorecase': ic, 'expect_exact': ex})
         # direct oracle on the descriptor: the property itself, entry by entry
         if res[0] == 0 and not ex and nhit < 3:
             entries = o[1] if o[0] == 'list' else ([] if o[0] == 'None' else [o])
